@@ -168,7 +168,8 @@ public:
     void rollback(std::size_t iteration) override
     {
         Checkpoint::rollback(iteration);
-        generators_.erase(generators_.begin() + iteration, generators_.end());
+        // `generators_` has one more element than `results_`: the generator the run started with
+        generators_.erase(generators_.begin() + iteration + 1, generators_.end());
     }
 
     void serialize(std::ostream& out) const override
